@@ -119,6 +119,10 @@ Print Assumptions C12_inactive_token_contributes_nothing.
    message, category, file or attribute value can be read as pattern syntax.  (A typing fact of the
    model; on the implementation side parsePattern() runs in the constructor, before any message exists.) *)
 Definition C12_tokeniser_never_sees_a_value : qstr -> list token := parse_pattern.
+(* Likewise the message record [msg] the evaluator reads has a [text] field and NO formatted-text field:
+   %{message} is the raw message text whatever an earlier formatter (or an earlier pass of this one) left
+   in the message - the correspondence leg formats a share of the cases on messages that already carry
+   formatter output and compares with the model on the original text. *)
 Theorem C12_format_is_parse_then_evaluate : forall p m, format_pattern p m = format_model (parse_pattern p) m.
 Proof. exact (fun p m => eq_refl). Qed.
 Print Assumptions C12_format_is_parse_then_evaluate.
